@@ -124,27 +124,35 @@ pub fn judge_history(prefix: &str, case: &Case, ex: &mut Exec, check_conv: bool)
     // long data piling up beyond the 64 MiB the server advertises as max_allowed_packet on one
     // parameter: a server may end the connection over it (as over long data for an unknown id);
     // every execution it *did* serve must still have been served exactly
-    let over_limit = {
+    // (number of executions sent before the chunk that crosses the limit)
+    let over_limit: Option<usize> = {
         let mut pending: std::collections::HashMap<(usize, u16), usize> = Default::default();
-        let mut over = false;
+        let mut over = None;
+        let mut n_exec = 0usize;
         for op in &case.ops {
             match op {
                 Op::Long { stmt, param, data } => {
                     let e = pending.entry((*stmt, *param)).or_insert(0);
                     *e += data.len();
-                    over |= *e > (1 << 26);
+                    if *e > (1 << 26) && over.is_none() {
+                        over = Some(n_exec);
+                    }
                 }
-                Op::Exec { stmt, .. } | Op::Reprepare { stmt } => pending.retain(|(s, _), _| s != stmt),
+                Op::Exec { stmt, .. } => {
+                    n_exec += 1;
+                    pending.retain(|(s, _), _| s != stmt)
+                }
+                Op::Reprepare { stmt } => pending.retain(|(s, _), _| s != stmt),
                 Op::Ping => {}
             }
         }
         over
     };
-    if over_limit && o.result.is_err() {
+    if let (Some(n_before), true) = (over_limit, o.result.is_err()) {
         ex.class("over-limit-long-data-ended-the-connection");
         let execs: Vec<&Event> = o.events.iter().filter(|e| matches!(e, Event::Execute { .. })).collect();
-        if execs.len() > want.len() {
-            ex.fail(format!("{}-exec-count", prefix), format!("{} executions reached the shim, client sent {}", execs.len(), want.len()));
+        if execs.len() != n_before {
+            ex.fail(format!("{}-exec-count", prefix), format!("{} executions reached the shim; the connection ended over long data beyond the advertised limit, before which the client had sent {}", execs.len(), n_before));
             return;
         }
         for (k, (ev, (id, w))) in execs.iter().zip(&want).enumerate() {
@@ -159,10 +167,29 @@ pub fn judge_history(prefix: &str, case: &Case, ex: &mut Exec, check_conv: bool)
                 }
             }
         }
-        let kinds: Vec<ReplyKind> = conv.cmds.iter().map(|sc| sc.cmd.reply_kind()).collect();
+        // ... and the output is exactly the replies to what came before that chunk (a long-data
+        // command has no reply, refused or not)
+        let mut pending: std::collections::HashMap<(u32, u16), usize> = Default::default();
+        let mut ci = conv.cmds.len();
+        for (i, sc) in conv.cmds.iter().enumerate() {
+            match &sc.cmd {
+                Cmd::LongData { id, param, data } => {
+                    let e = pending.entry((*id, *param)).or_insert(0);
+                    *e += data.len();
+                    if *e > (1 << 26) {
+                        ci = i;
+                        break;
+                    }
+                }
+                Cmd::Execute { id, .. } | Cmd::Close { id } => pending.retain(|(s, _), _| s != id),
+                Cmd::Prepare { .. } => {}
+                _ => {}
+            }
+        }
+        let kinds: Vec<ReplyKind> = conv.cmds[..ci].iter().map(|sc| sc.cmd.reply_kind()).collect();
         let d = decode_output(&o.out, &kinds);
-        if d.problem.is_some() && !d.truncated_only {
-            ex.fail(format!("{}-nonconformant", prefix), format!("client decoder rejects the output: {:?}", d.problem));
+        if d.problem.is_some() || d.stray_msgs != 0 || d.trailing_bytes != 0 || d.replies.len() != kinds.len() {
+            ex.fail(format!("{}-bytes-for-refused-long-data", prefix), format!("the output is not exactly the replies to the {} commands before the over-limit chunk: {:?}, {} stray packets, {} stray bytes", ci, d.problem, d.stray_msgs, d.trailing_bytes));
         }
         return;
     }
